@@ -73,6 +73,8 @@ type Config struct {
 	StallMax      int64     `json:"stall_max"`       // ns
 	LastFaultStep int64     `json:"last_fault_step"` // no stall is injected after this global step (0 = never stop)
 	SpawnCost     int64     `json:"spawn_cost"`      // step cost of tasks started through Go (0 = the parent's)
+	SyncStallProb uint32    `json:"sync_stall_prob"` // per 1024: a task is descheduled for a while at a sync point
+	SyncStallMax  int64     `json:"sync_stall_max"`  // ns
 	Trace         bool      `json:"-"`
 }
 
@@ -92,6 +94,7 @@ type Task struct {
 	lastSite    int   // site at which the task last gave up the baton
 	interrupted bool  // Fair: pre-empted by a timer wake-up, resumes first with the rest of its quantum
 	qRemain     int64
+	stalled     bool // sleeping because of an injected sync-point stall
 	wokeAt      int64
 	MaxLate     int64 // largest lateness of a wake-up
 	MaxBusy     int64 // largest virtual time between a wake-up and the next Sleep call
@@ -131,6 +134,7 @@ type Stats struct {
 	Stalls          int64
 	ClockJumps      int64 // idle jumps of virtual time to the next timer
 	OverlapSwitches int64 // hand-offs while at least two client operations were in flight
+	SyncStalls      int64 // tasks descheduled at a sync point (fault)
 }
 
 type World struct {
@@ -542,6 +546,16 @@ func (w *World) syncPoint(site int) {
 		w.preNext++
 		w.setNext(t)
 	}
+	if w.Cfg.SyncStallProb > 0 && site != -7 && (w.Cfg.LastFaultStep == 0 || w.Steps < w.Cfg.LastFaultStep) && w.chance(w.Cfg.SyncStallProb) {
+		// fault: the OS deschedules this task right here for a while (a slow or stalled caller / clock goroutine)
+		w.St.SyncStalls++
+		d := 1 + int64(w.Draw(uint64(w.Cfg.SyncStallMax)+1))
+		t.stalled = true
+		w.pushTimer(timer{at: w.Vnow + d, seq: w.nextSeq(), t: t})
+		t.state = stSleeping
+		w.yieldKind(t, site, 16)
+		return
+	}
 	if w.Cfg.Policy == Adversarial && w.chance(w.Cfg.SwitchProb) {
 		t.state = stRunnable
 		t.readyAt = w.Steps
@@ -645,9 +659,14 @@ func (w *World) pick(from *Task, kind int) *Task {
 			w.St.TimerFires++
 			tm.t.state = stRunnable
 			tm.t.readyAt = w.Steps
-			tm.t.wokeAt = w.Vnow
-			if late := w.Vnow - tm.t.sleepAt; late > tm.t.MaxLate {
-				tm.t.MaxLate = late
+			if tm.t.stalled {
+				// end of a sync-point stall: the task's busy interval (wake-up .. next Sleep) keeps running
+				tm.t.stalled = false
+			} else {
+				tm.t.wokeAt = w.Vnow
+				if late := w.Vnow - tm.t.sleepAt; late > tm.t.MaxLate {
+					tm.t.MaxLate = late
+				}
 			}
 			if woken == nil {
 				woken = tm.t
